@@ -145,15 +145,13 @@ def magic_to_dict(kwargs, separator="_") -> dict:
     new_kwargs = {}
     for k, v in kwargs.items():
         keys = k.split(separator)
-        if len(keys) == 1:
-            new_kwargs[keys[0]] = v
+        # several keys may address the same sub-dictionary (`path_line_width=..`, `path={..}`, `path_line={..}`):
+        # merge them recursively, in a new dict (an existing one may belong to the caller)
+        val = v if len(keys) == 1 else {separator.join(keys[1:]): v}
+        if isinstance(val, dict) and isinstance(new_kwargs.get(keys[0]), dict):
+            new_kwargs[keys[0]] = update_nested_dict(new_kwargs[keys[0]], val)
         else:
-            val = {separator.join(keys[1:]): v}
-            if keys[0] in new_kwargs and isinstance(new_kwargs[keys[0]], dict):
-                # merge into a new dict, the existing one may belong to the caller
-                new_kwargs[keys[0]] = {**new_kwargs[keys[0]], **val}
-            else:
-                new_kwargs[keys[0]] = val
+            new_kwargs[keys[0]] = val
     for k, v in new_kwargs.items():
         if isinstance(v, dict):
             new_kwargs[k] = magic_to_dict(v, separator=separator)
